@@ -1125,6 +1125,16 @@ def set_iteration_sites(repo):
             elif isinstance(n, ast.Call) and isinstance(n.func, ast.Name) \
                     and n.func.id in ORDERED_CONSUMERS:
                 its += [(a, n.func.id) for a in n.args]
+            elif isinstance(n, ast.Call) and isinstance(n.func, ast.Name) \
+                    and n.func.id in ("sorted", "min", "max") and any(
+                        k.arg == "key" and not (
+                            # position in a sequence: distinct per element
+                            isinstance(k.value, ast.Attribute) and
+                            k.value.attr == "index")
+                        for k in n.keywords):
+                # a key function may tie: equal keys keep the order of the
+                # iteration (sorted is stable, min/max return the first)
+                its += [(a, n.func.id + "(key=)") for a in n.args[:1]]
             elif isinstance(n, ast.Call) and isinstance(
                     n.func, ast.Attribute) and n.func.attr in (
                         "join", "extend"):
@@ -1430,9 +1440,16 @@ def scoped_call(lin, pattern):
     generated local that an earlier fragment binds to ``econtext.copy()``.
     -> (index, key of that local or None); (-1, None) if there is none."""
     copies = {}
+    other = set()
     for i, (it, conds, path) in enumerate(lin.rows):
         if not isinstance(it, A.Frag):
             continue
+        for node, b in frag_find(it, "_C = _V"):
+            # any other binding of the same local (in another branch of the
+            # emitter: 'SCOPE = econtext' where a copy "is not needed")
+            if isinstance(b["_C"], ast.Name) and \
+                    src(b["_V"]) != "econtext.copy()":
+                other.add(name_key(it, b["_C"]))
         for node, b in frag_find(it, "_C = econtext.copy()"):
             if isinstance(b["_C"], ast.Name):
                 v = slot_value(it, b["_C"])
@@ -1444,7 +1461,7 @@ def scoped_call(lin, pattern):
                 return i, None
             if isinstance(c, ast.Name):
                 k = name_key(it, c)
-                if k in copies and copies[k] < i:
+                if k in copies and copies[k] < i and k not in other:
                     return i, k
     return -1, None
 
